@@ -748,13 +748,17 @@ fn parent_main(engine: &dyn Engine, tier: Tier) -> ! {
         for m in &machinery_errors {
             eprintln!("MACHINERY-ERROR: {m}");
         }
-        std::process::exit(2);
+        // a confirmed, replayable violation stands even if another part of the run misbehaved
+        std::process::exit(if new_violations.is_empty() { 2 } else { 1 });
+    }
+    if !new_violations.is_empty() {
+        std::process::exit(1);
     }
     if evaluations == 0 {
         eprintln!("MACHINERY-ERROR: nothing was explored");
         std::process::exit(2);
     }
-    std::process::exit(if new_violations.is_empty() { 0 } else { 1 })
+    std::process::exit(0)
 }
 
 fn confirm_and_shrink(engine: &dyn Engine, f: Failure) -> Result<Failure, String> {
